@@ -126,7 +126,7 @@ PeerCloseStream(s) == /\ Start /\ Op /\ link = "up" /\ npc < MaxPeerClose /\ ~pe
                                      tableNil, notified, cbBusy, waitExit, cbL, cbR, unread, rd, fl, acc, bm, qm, sendLoop,
                                      snap, cur, ws, tdRuns, nsent, lastOpen, lastSend, sendLate, openAtDeath, kf>>
 
-PeerDrain == /\ Start /\ Op /\ link = "up" /\ flag = 1 /\ shutdown = 0 /\ conn = "open"
+PeerDrain == /\ Start /\ Op /\ link = "up" /\ flag = 1 /\ shutdown = 0 /\ conn = "open" /\ fl # "parked"
              /\ flag' = 0
              /\ UNCHANGED <<shutdown, serr, shutCh, pc, ret, lambdas, batch, conn, link, hup, inbox, st, inTable, tableNil,
                             notified, cbBusy, waitExit, cbL, cbR, unread, peerClosed, rd, fl, acc, bm, qm, sendLoop, snap,
@@ -375,7 +375,8 @@ SendCheck(s) == /\ Start /\ Op /\ pc["w"] = "idle" /\ s \notin CbStreams
                                sendLoop, snap, cur, tdRuns, nsent, npc, lastOpen, openAtDeath>>
 
 \* queue put + wakeUpPeer.  A write on a connection that is closing / whose peer is gone fails: exitErr from this goroutine
-WriteFails == conn # "open" \/ link = "down"
+\* (while the send loop sits in a blocked fallback write it holds `writing`: the polling event is only queued on sendCh)
+WriteFails == conn # "open" \/ (link = "down" /\ fl # "parked")
 SendPut == /\ Step("w") /\ pc["w"] = "s_put"
            /\ IF qm = "unmapped"
                 THEN /\ lastSend' = "fault" /\ kf' = kf \cup {"stream-op-races-unmap"}
